@@ -151,6 +151,7 @@ class Broker:
         )
         margin_actual = self._holdings_margins[trade.contract]
         margin_diff = margin_expected - margin_actual
+        quantity_pre = self._holdings_quantity[trade.contract]
 
         # Pay transaction costs.
         self._holdings_quantity[self.base_currency] -= trade.cost_of_commissions
@@ -172,7 +173,17 @@ class Broker:
             self._holdings_quantity[trade.contract] = 0.
 
         # Update _margin requirements. Bid-ask spread is implicitly paid
-        # here and now.
+        # here and now. The position held before the trade keeps its gains or
+        # losses when the reference price moves to the acquisition price, so
+        # that the spread is paid on the traded quantity only.
+        if (
+            trade.contract.margin_requirement != 0
+            and trade.contract in self._last_marking_to_market_price
+        ):
+            last_price = self._last_marking_to_market_price[trade.contract]
+            self._holdings_margins[trade.contract] += (
+                quantity_pre * trade.contract.multiplier * (trade.acq_price - last_price)
+            )
         self._last_marking_to_market_price[trade.contract] = trade.acq_price
         self.marking_to_market(trade.contract)
 
